@@ -441,6 +441,18 @@ class Schema(dict, metaclass=LogicalMeta):
         self.__dict__.pop(field.attname, None)
         return value
 
+    def setdefault(self, key: str, default=None):
+        # dict.setdefault would store the value unparsed
+        if key in self:
+            return self[key]
+        self[key] = default
+        return self[key] if key in self else default
+
+    def __ior__(self, other):
+        # dict.__ior__ would store the values unparsed
+        self.update(other)
+        return self
+
     def update(self, __m=None, **kwargs):
         if self.__options__.immutable:
             raise exc.UpdateError(
